@@ -65,6 +65,17 @@ class PathState:
         return None
 
 
+def _delegated(ctx, fn, names):
+    """name of a helper of compile.py that the confirmed reference does not have, that is called from fn and that contains one
+    of the calls `names` (the step was moved out of the build routine, e.g. into a context manager)"""
+    from sa import alpha as _alpha
+    called = {(c.func.attr if isinstance(c.func, ast.Attribute) else getattr(c.func, 'id', None)) for c in ast.walk(fn) if isinstance(c, ast.Call)}
+    for f_ in ctx.prog.funcs_in(CP, include_nested=True):
+        if f_.name in called and _alpha.is_new_function(f_.qual) and any(isinstance(c, ast.Call) and call_name(c) in names for c in ast.walk(f_.node)):
+            return f_.name
+    return None
+
+
 def r20(ctx):
     nc = ctx.prog.func(CP + '._compile_cython_module_nocache')
     fn = nc.node
@@ -128,6 +139,9 @@ def r20(ctx):
         d = kwarg(call, 'dir')
         ctx.decide('R20.2', nc.qual, src(call), d is not None and ps.state(d) == 'PUBLISHED' or None, call,
                    'scratch directory on the same file system as the cache directory, so that os.replace is a rename')
+    elif _delegated(ctx, fn, TEMP_SOURCES):
+        ctx.undecided('R20.2', nc.qual, 'scratch directory created by the helper %s' % _delegated(ctx, fn, TEMP_SOURCES), fn,
+                      'the creation of the scratch directory was moved into a helper: not followed')
     else:
         ctx.violated('R20.2', nc.qual, 'no temporary directory is created', fn,
                      'build_temp, build_lib and the .pyx live in shared locations: concurrent builders of the same form overwrite each other\'s files')
@@ -140,6 +154,9 @@ def r20(ctx):
         raise AnchorMissing('R20.3: build_extension.run() / import_module')
     if all(st == 'PUBLISHED' for _w, _n, st, _e in writers if _w.startswith('build_ext.build_lib')):
         ctx.violated('R20.3', nc.qual, 'no atomic publication step', run[0], 'the linker writes the shared object directly under its importable name')
+    elif not pub and _delegated(ctx, fn, ATOMIC):
+        ctx.undecided('R20.3', nc.qual, 'publication by the helper %s' % _delegated(ctx, fn, ATOMIC), run[0],
+                      'the publication step was moved into a helper: not followed')
     elif not pub:
         ctx.violated('R20.3', nc.qual, 'built module is never moved into the cache directory', run[0], 'import_module would not find it')
     else:
